@@ -26,6 +26,61 @@ func (w *World) rulesHeader(p *Pkg, m *parseModel, add func(ok bool, rule, inst 
 		fail(m.fd, "ParseVector does not start with the header guard")
 		return
 	}
+	retOK := func(list []ast.Stmt) bool {
+		if len(list) != 1 {
+			return false
+		}
+		rs, ok := list[0].(*ast.ReturnStmt)
+		if !ok || len(rs.Results) != 2 || !isNilIdent(info, rs.Results[0]) {
+			return false
+		}
+		sv := p.sentinel(rs.Results[1])
+		return sv != nil && sv.Name() == "ErrInvalidCVSSHeader"
+	}
+	// the parameter must not be read again once the remainder has its own variable
+	paramUnusedAfter := func(from int) (ast.Node, bool) {
+		var bad ast.Node
+		for _, s := range body[from:] {
+			ast.Inspect(s, func(n ast.Node) bool {
+				if id, ok := n.(*ast.Ident); ok && info.Uses[id] == m.param && bad == nil {
+					bad = id
+				}
+				return true
+			})
+		}
+		return bad, bad == nil
+	}
+	// form B: rest, ok := strings.CutPrefix(vector, header); if !ok { return nil, ErrInvalidCVSSHeader }
+	if as, ok := body[0].(*ast.AssignStmt); ok && len(as.Lhs) == 2 && len(as.Rhs) == 1 {
+		if call, ok := as.Rhs[0].(*ast.CallExpr); ok && isStringsFunc(calleeOf(info, call), "CutPrefix") && len(call.Args) == 2 {
+			okObj := identObj(info, as.Lhs[1])
+			h, okH := constString(info, call.Args[1])
+			ifs, isIf := body[1].(*ast.IfStmt)
+			switch {
+			case identObj(info, call.Args[0]) != m.param:
+				fail(as, "header guard does not test the input string")
+			case !okH || h != ov.Header:
+				fail(as, fmt.Sprintf("header guard tests the prefix %q, the specification header is %q", h, ov.Header))
+			case !isIf || ifs.Init != nil || ifs.Else != nil:
+				fail(body[1], "the result of strings.CutPrefix is not tested right away")
+			default:
+				not, isNot := ifs.Cond.(*ast.UnaryExpr)
+				if !isNot || not.Op != token.NOT || identObj(info, not.X) != okObj || !retOK(ifs.Body.List) {
+					fail(ifs, "a wrong header is not answered with (nil, ErrInvalidCVSSHeader)")
+					return
+				}
+				if identObj(info, as.Lhs[0]) != m.param {
+					if at, ok := paramUnusedAfter(2); !ok {
+						fail(at, "the unstripped input is read again after the header was cut off")
+						return
+					}
+				}
+				add(true, "R01.header", "ParseVector.header", as, fmt.Sprintf("strings.CutPrefix rejects every string not starting with %q and yields the remainder; the guard dominates all later code", h))
+				add(true, "R13.guard", "ParseVector.header", as, fmt.Sprintf("an accepted string starts with %q", h))
+			}
+			return
+		}
+	}
 	ifs, ok := body[0].(*ast.IfStmt)
 	if !ok || ifs.Init != nil || ifs.Else != nil {
 		fail(body[0], "the first statement of ParseVector is not `if !strings.HasPrefix(vector, header) { return nil, ErrInvalidCVSSHeader }`")
@@ -50,21 +105,13 @@ func (w *World) rulesHeader(p *Pkg, m *parseModel, add func(ok bool, rule, inst 
 		fail(ifs, fmt.Sprintf("header guard tests the prefix %q, the specification header is %q", h, ov.Header))
 		return
 	}
-	okRet := false
-	if len(ifs.Body.List) == 1 {
-		if rs, ok := ifs.Body.List[0].(*ast.ReturnStmt); ok && len(rs.Results) == 2 && isNilIdent(info, rs.Results[0]) {
-			if sv := p.sentinel(rs.Results[1]); sv != nil && sv.Name() == "ErrInvalidCVSSHeader" {
-				okRet = true
-			}
-		}
-	}
-	if !okRet {
+	if !retOK(ifs.Body.List) {
 		fail(ifs, "a wrong header is not answered with (nil, ErrInvalidCVSSHeader)")
 		return
 	}
-	// remainder
+	// remainder: vector = vector[len(header):]  or  rest := vector[len(header):] (and vector not read again)
 	as, ok := body[1].(*ast.AssignStmt)
-	okRem := ok && len(as.Lhs) == 1 && len(as.Rhs) == 1 && identObj(info, as.Lhs[0]) == m.param
+	okRem := ok && len(as.Lhs) == 1 && len(as.Rhs) == 1
 	if okRem {
 		sl, ok := as.Rhs[0].(*ast.SliceExpr)
 		okRem = ok && identObj(info, sl.X) == m.param && sl.High == nil && sl.Low != nil
@@ -76,6 +123,12 @@ func (w *World) rulesHeader(p *Pkg, m *parseModel, add func(ok bool, rule, inst 
 	if !okRem {
 		fail(body[1], "after the guard the input is not advanced by exactly len(header)")
 		return
+	}
+	if identObj(info, as.Lhs[0]) != m.param {
+		if at, ok := paramUnusedAfter(2); !ok {
+			fail(at, "the unstripped input is read again after the header was cut off")
+			return
+		}
 	}
 	add(true, "R01.header", "ParseVector.header", ifs, fmt.Sprintf("first statement rejects every string not starting with %q; the remainder is vector[len(header):]; the guard dominates all later code", h))
 	add(true, "R13.guard", "ParseVector.header", ifs, fmt.Sprintf("an accepted string starts with %q", h))
@@ -298,6 +351,8 @@ func (w *World) rulesReturns(p *Pkg, m *parseModel, km *KvmModel, add func(ok bo
 		switch {
 		case cc != nil && cc.List == nil:
 			kind = "cursor-exhausted(default arm)"
+		case ifs != nil && inBody && (ifs == fd.Body.List[0] || (len(fd.Body.List) > 1 && ifs == fd.Body.List[1])) && ov.Header != "" && sv.Name() == "ErrInvalidCVSSHeader":
+			kind, want = "header", "ErrInvalidCVSSHeader"
 		case ifs != nil && inBody && ifs == fd.Body.List[0] && ov.Header != "":
 			kind, want = "header", "ErrInvalidCVSSHeader"
 		case m.autoOK && (inLoop(rs) || afterLoop(rs)) && !mentionsInput(rs):
